@@ -1130,7 +1130,7 @@ class Interp(object):
         return out
 
     def eval_Dict(self, e, env, module, func):
-        d = {}
+        d = SymDict()
         for k, v in zip(e.keys, e.values):
             if k is None:
                 d.update(self.eval(v, env, module, func))
@@ -1513,6 +1513,61 @@ class Interp(object):
         finally:
             self.frames.pop()
             self.depth -= 1
+
+
+class HashKey(object):
+    """result of hash(tuple of scalars): two keys are equal iff the tuples are equal component-wise (the builtin hash is
+    assumed injective on the integer tuples that occur: stated assumption of C09)"""
+    def __init__(self, items):
+        self.items = tuple(items)
+
+    def equals(self, o):
+        if not isinstance(o, HashKey) or len(o.items) != len(self.items):
+            return False
+        return sym.and_(*[sym.cmp('==', a, b) for a, b in zip(self.items, o.items)]) if self.items else True
+
+    __hash__ = object.__hash__
+
+
+class SymDict(dict):
+    """dict that also accepts symbolic keys (HashKey): lookups compare keys symbolically, newest entry first"""
+    def __init__(self, *a, **k):
+        dict.__init__(self, *a, **k)
+        self.sym = []
+
+    def __setitem__(self, k, v):
+        if isinstance(k, HashKey):
+            self.sym.append((k, v))
+        else:
+            dict.__setitem__(self, k, v)
+
+    def _find(self, k):
+        for kk, v in reversed(self.sym):
+            if truth(k.equals(kk)):
+                return True, v
+        return False, None
+
+    def __getitem__(self, k):
+        if isinstance(k, HashKey):
+            ok, v = self._find(k)
+            if ok:
+                return v
+            raise KeyError('hash key')
+        return dict.__getitem__(self, k)
+
+    def get(self, k, d=None):
+        if isinstance(k, HashKey):
+            ok, v = self._find(k)
+            return v if ok else d
+        return dict.get(self, k, d)
+
+    def __contains__(self, k):
+        if isinstance(k, HashKey):
+            return self._find(k)[0]
+        return dict.__contains__(self, k)
+
+    def __len__(self):
+        return dict.__len__(self) + len(self.sym)
 
 
 class SuperProxy(object):
@@ -1922,6 +1977,13 @@ def make_builtins(interp):
     def _iter(x):
         return iter(interp.iterate(x))
 
+    def _hash(x):
+        if isinstance(x, tuple):
+            return HashKey([sym._generic(e) for e in x])
+        if isinstance(x, (SV, Fraction, int)):
+            return HashKey([x])
+        return hash(x)
+
     def _next(it, *d):
         try:
             return next(it)
@@ -1936,7 +1998,7 @@ def make_builtins(interp):
               'round': _round, 'str': _str, 'sorted': _sorted, 'enumerate': _enumerate, 'zip': _zip, 'list': _list,
               'tuple': _tuple, 'dict': _dict, 'set': _set, 'bool': _bool, 'pow': _pow, 'map': _map, 'filter': _filter,
               'reversed': _reversed, 'id': _id, 'open': _open, 'object': object, 'issubclass': _issubclass,
-              'divmod': _divmod, 'iter': _iter, 'next': _next, 'True': True, 'False': False, 'None': None,
+              'divmod': _divmod, 'iter': _iter, 'hash': _hash, 'next': _next, 'True': True, 'False': False, 'None': None,
               'NotImplemented': NotImplemented, 'Ellipsis': Ellipsis, 'repr': _str, 'slice': slice,
               'property': Prop, 'staticmethod': StaticM, 'classmethod': ClassM, 'frozenset': frozenset,
               '__name__': '__kvc__'})
